@@ -54,7 +54,8 @@ Slices == << ESlice(ELit(IntV(1)), ENul("LENGTH")), ESlice(ELit(IntV(0)), ELit(I
              ESlice(ELit(IntV(0)), ELit(IntV(-3))), ESlice(ELit(IntV(3)), ENul("LENGTH")) >>
 Nullary == << ENul("LENGTH"), ENul("KEYS"), ENul("REVERSE"), ENul("UNIQUE"), EFlatten(-1), EFlatten(1), ENul("ANY"), ENul("ALL"),
               ENul("TO_ENTRIES"), ENul("FROM_ENTRIES"), ENul("NOT"), ERecurse(TRUE),
-              ENul("GET_TAG"), ENul("GET_KIND"), ENul("TO_STRING"), ENul("TO_NUMBER"), ENul("PIVOT") >>
+              ENul("GET_TAG"), ENul("GET_KIND"), ENul("TO_STRING"), ENul("TO_NUMBER"), ENul("PIVOT"),
+              ENul("MIN"), ENul("MAX"), EUn("SORT_KEYS", ESelf), EUn("SORT_KEYS", ERecurse(FALSE)), EUn("ERROR", ELit(StrV(A))) >>
 PathSlices == << ETravArr(EPath(A), ECollect(EBin("CREATE_MAP", ELit(IntV(1)), ENul("LENGTH")))), ETravArr(EPath(A), ECollect(EBin("CREATE_MAP", ELit(IntV(0)), ELit(IntV(1))))),
                  ETravArr(EPath(A), ECollect(ELit(IntV(0)))), ETravArr(EPath(B), ECollect(EEmpty)) >>
 Leaf == Paths0 \o Lits \o Slices \o Nullary \o PathSlices
@@ -81,6 +82,11 @@ Special(E) == [i \in DOMAIN E |-> EBin("CONTAINS", ESelf, E[i])]
               \o [i \in DOMAIN E |-> EReduce(E[i], "x", ELit(IntV(0)), EBin("ADD", ESelf, EVar("x")))]
               \o [i \in DOMAIN E |-> EReduce(ESplat, "x", E[i], EBin("ADD", ESelf, EVar("x")))]
               \o [i \in DOMAIN E |-> EReduce(ESplat, "x", ECollect(EEmpty), EBin("ADD", ECollect(EVar("x")), ESelf))]
+              \* pick / omit: literal key lists, the probe as the list and inside it
+              \o FlatMap(LAMBDA o : [i \in DOMAIN E |-> EUn(o, ECollect(EUnion(ELit(StrV(B)), ELit(StrV(A)))))], <<"PICK", "OMIT">>)
+              \o FlatMap(LAMBDA o : [i \in DOMAIN E |-> EPipe(E[i], EUn(o, ECollect(EUnion(ELit(IntV(1)), ELit(IntV(0))))))], <<"PICK", "OMIT">>)
+              \o FlatMap(LAMBDA o : [i \in DOMAIN E |-> EUn(o, ECollect(E[i]))], <<"PICK", "OMIT">>)
+              \o FlatMap(LAMBDA o : [i \in DOMAIN E |-> EUn(o, E[i])], <<"PICK", "OMIT">>)
               \* setpath / delpaths: the probe as the value, as the path, inside the path
               \o [i \in DOMAIN E |-> EBin("SET_PATH", ECollect(ELit(StrV(A))), E[i])]
               \o [i \in DOMAIN E |-> EBin("SET_PATH", ECollect(EUnion(ELit(StrV(B)), ELit(IntV(1)))), E[i])]
